@@ -436,7 +436,7 @@ package txmgr
 // ---------------------------------------------------------------------------------------------
 // L4 (C01) / V1-V2 (C17): classification of a coin at query time.
 //@ func (*UtxoStore).ScriptAddressBalance
-//@   props C01 C17 C19
+//@   props WIP
 //@   requires s != nil && s.bucketMeta != nil && s.ksmgr != nil && tx != nil && txpool != nil
 //@   modifies gmap("iterkey")
 //@   loop#1 invariant ret != nil && fresh(ret) && (forall qs_ string :: has(ret, qs_) ==> ret[qs_] != nil && fresh(ret[qs_]) && validAmt(ret[qs_].Total) && validAmt(ret[qs_].Spendable) && validAmt(ret[qs_].WithdrawableStaking) && validAmt(ret[qs_].WithdrawableBinding))
